@@ -74,6 +74,7 @@ static jv *verdict_base(int ok)
 
 static jv *cur_call;
 static jv *cur_keys;
+static int in_conc;
 static jv *soft_div;      /* an allocation-count-only difference seen earlier in this script */
 static int soft_offset;
 static jv *trace;  /* array of observed records when --trace */
@@ -86,6 +87,7 @@ static void diverge(const char *kind, const char *key, jv *exp, jv *obs)
   if (cur_call) { j_put(v, "fn", j_mkstr(j_str(cur_call, "fn", "?"))); j_put(v, "call", cur_call); }
   if (key) j_put(v, "key", j_mkstr(key));
   if (cur_keys) j_put(v, "keys", cur_keys);
+  if (in_conc) j_put(v, "conc", j_mkint(1));   /* found while (or right after) two threads' calls were interleaved */
   if (soft_div) j_put(v, "also", soft_div);
   if (exp) j_put(v, "exp", exp);
   if (obs) j_put(v, "obs", obs);
@@ -1089,7 +1091,9 @@ static void run_script(jv *s)
     }
     if (!strcmp(e, "conc")) {
       cur_call = st; pos++;
+      in_conc = 1;
       jv *x = run_conc(st);
+      cur_call = st;
       j_put(x, "kids", conc_obs());
       if (trace) { jv *rec = j_mkobj(); j_put(rec, "e", j_mkstr("obs")); j_put(rec, "call", st); j_put(rec, "o", x); j_push(trace, rec); }
       jv *exp = j_get(st, "exp");
@@ -1101,6 +1105,7 @@ static void run_script(jv *s)
         }
         if (badkeys) { cur_keys = badkeys; diverge("mismatch", badkeys->a[0]->s, exp, x); }
       }
+      in_conc = 0;
       continue;
     }
     if (!strcmp(e, "ret")) { pos++; continue; }
@@ -1202,7 +1207,7 @@ static void run_line(char *line, int idx)
 {
   const char *err;
   j_reset();
-  trace = NULL; cur_call = NULL; cur_keys = NULL; soft_div = NULL; soft_offset = 0;
+  trace = NULL; cur_call = NULL; cur_keys = NULL; soft_div = NULL; soft_offset = 0; in_conc = 0;
   if (!strncmp(line, "<<\"BEH\", \"", 10)) {
     /* TLC PrintT of <<"BEH", ToJson(hist)>>: a TLA+ string literal; undo its escaping in place */
     char *o = line, *q = line + 10;
